@@ -60,7 +60,8 @@ TailEntries == {"unmarshal", "frag_open"}   \* entries that read an op-log tail
 NoCase == [fam |-> "none", entry |-> "", fmt |-> "", shape |-> << >>, tail |-> << >>,
            cors |-> << >>, toks |-> << >>, nestkind |-> "", nest |-> 0,
            mtype |-> 0, mbody |-> "",
-           form |-> "", clear |-> FALSE, views |-> << >>]
+           form |-> "", clear |-> FALSE, views |-> << >>,
+           mpath |-> "", mmode |-> ""]
 
 Cor(k, s, i, v) == [kind |-> k, sec |-> s, idx |-> i, val |-> v]
 
@@ -196,12 +197,45 @@ PqlBase0 ==
 \* the controls of the msg family (CreateShard, CreateView, RecalculateCaches, NodeStatus)
 ValidControlTypes == {0, 5, 13, 15}
 
+\* Body kind "nested": a WELL-FORMED protobuf body of the right type, written field by
+\* field by the harness's own protobuf writer, in which exactly one nested sub-message
+\* field (named by its path) is absent, or present but empty.  NestedPaths lists, per
+\* message type, every path to a nested message field of internal/private.proto
+\* (repeated fields: absent = no element, empty = one empty element).
+NodePaths(p) == {p, p \o ".URI"}
+SchemaPaths(p) == {p, p \o ".Indexes", p \o ".Indexes.Fields", p \o ".Indexes.Fields.Meta",
+                   p \o ".Indexes.Options"}
+NodeStatusPaths(pre) == NodePaths(pre \o "Node") \cup SchemaPaths(pre \o "Schema")
+                        \cup {pre \o "Indexes", pre \o "Indexes.Fields"}
+ClusterStatusPaths(pre) == NodePaths(pre \o "Nodes")
+NestedPaths(ty) ==
+    CASE ty = 1  -> {"Meta"}
+      [] ty = 3  -> {"Meta"}
+      [] ty = 7  -> ClusterStatusPaths("")
+      [] ty = 8  -> NodePaths("Node") \cup NodePaths("Coordinator")
+                    \cup {"Sources"} \cup NodePaths("Sources.Node")
+                    \cup {"NodeStatus"} \cup NodeStatusPaths("NodeStatus.")
+                    \cup {"ClusterStatus"} \cup ClusterStatusPaths("ClusterStatus.")
+      [] ty = 9  -> NodePaths("Node")
+      [] ty = 10 -> NodePaths("New")
+      [] ty = 11 -> NodePaths("New")
+      [] ty = 14 -> NodePaths("Node")
+      [] ty = 15 -> NodeStatusPaths("")
+      [] OTHER   -> {}
+NestedModes == {"absent", "empty"}
+
 MsgBase0 ==
-    \E e \in MsgEntries, ty \in MsgTypes, b \in MsgBodies :
-       /\ (b = "none" => ty = 0)      \* a zero-length message has no type byte
-       /\ (b = "valid" => ty \in ValidControlTypes)
-       /\ c' = [NoCase EXCEPT !.fam = "msg", !.entry = e, !.mtype = ty, !.mbody = b]
-       /\ stage' = "fin"
+    \/ \E e \in MsgEntries, ty \in MsgTypes, b \in MsgBodies \ {"nested"} :
+          /\ (b = "none" => ty = 0)      \* a zero-length message has no type byte
+          /\ (b = "valid" => ty \in ValidControlTypes)
+          /\ c' = [NoCase EXCEPT !.fam = "msg", !.entry = e, !.mtype = ty, !.mbody = b]
+          /\ stage' = "fin"
+    \/ /\ "nested" \in MsgBodies
+       /\ \E e \in MsgEntries, ty \in MsgTypes :
+             \E pa \in NestedPaths(ty), mo \in NestedModes :
+                /\ c' = [NoCase EXCEPT !.fam = "msg", !.entry = e, !.mtype = ty, !.mbody = "nested",
+                                       !.mpath = pa, !.mmode = mo]
+                /\ stage' = "fin"
 
 \* ---- the envelope of an import-roaring request (ImportRoaringRequest{Clear, Views}):
 \* how many views, under which names, with which class of data, the clear flag alone,
